@@ -29,12 +29,14 @@ def add_schemes(
 
 def find_pyproject_toml_config() -> Path | None:
     """Find the pyproject.toml file."""
-    from black.files import find_pyproject_toml
-
-    path = find_pyproject_toml((str(Path.cwd()),))
-    if path is None:
-        return None
-    return Path(path)
+    # Look for a pyproject.toml in the current directory and its parents. (black's
+    # find_pyproject_toml only accepts files that contain a [tool.black] section)
+    cwd = Path.cwd()
+    for directory in (cwd, *cwd.parents):
+        path = directory / "pyproject.toml"
+        if path.is_file():
+            return path
+    return None
 
 
 def read_config(path: Path | None) -> dict[str, Any]:
